@@ -166,7 +166,7 @@ impl Default for Mock {
             wire: Vec::new(),
             all_wire: Vec::new(),
             calls: 0,
-            max_calls: 400_000,
+            max_calls: 20_000,
             eof_when_empty: false,
         }
     }
